@@ -85,14 +85,20 @@ def run(ctx):
                 bad = bad or (key, have, want)
         # leaves that are not canonical objects, in any declaration
         noncanon = [(k, v) for k, v in got.items() if "!" in v]
-        known_sig = [(k, v) for k, v in noncanon if k[0] in ("Function", "Parameter")]
+        # (the known finding: only the signature of a function DEFINITION — the generated ones are 'void wrapN(void)', the hand-written 'void f(void)')
+        defined = {m.group(1): 1 + text.count("\n", 0, m.start()) for m in re.finditer(r"^void (\w+)\(void\)\n", text, re.M)}
+        known_sig = [(k, v) for k, v in noncanon if (k[0] == "Function" and k[1] in defined) or (k[0] == "Parameter" and k[2] in defined.values())]
         if known_sig:
             nknown += 1
             ctx.report("fundef-signature", "the type of a function DEFINITION and of its parameters is never canonicalised (e.g. %s:%s has %s: a basic/void leaf that is not the canonical object)"
                        % (known_sig[0][0][0], known_sig[0][0][1], known_sig[0][1]), {})
-        other = [(k, v) for k, v in noncanon if k[0] not in ("Function", "Parameter")]
+        other = [(k, v) for k, v in noncanon if (k, v) not in known_sig]
         if other and not bad:
             bad = (other[0][0], other[0][1], "every basic/void leaf canonical")
+        # every program is complete and valid: each typedef name and each tag refers to a declaration and resolves to something
+        unbound = [(k, v) for k, v in got.items() if re.search(r"@-|=>null|Error", v)]
+        if unbound and not bad:
+            bad = (unbound[0][0], unbound[0][1], "every typedef name / tag bound to its declaration and resolved")
         if diags != "-" and not bad:
             bad = (("diagnostics", "", 0), diags, "no diagnostic on a valid program")
         if bad:
@@ -123,7 +129,7 @@ def run(ctx):
                 key = ("Typedef", rec["name"], rec["line"])
             else:
                 nm, _, ln = label.partition("@")
-                key = ("Variable", nm, int(ln))
+                key = ("Field" if nm.startswith("f") else "Variable", nm, int(ln))
             if got.get(key) != ty:
                 dis = dis or (key, got.get(key), ty)
         if dis:
@@ -133,7 +139,7 @@ def run(ctx):
                            {"component": "typedefs", "case": line, "text": text}, no_input=True)
     ctx.cov.update({
         "evaluations": len(lines), "traces_validated_against_impl": len(lines), "distinct_nontrivial": ndecl, "exhaustive": False,
-        "rule": "generated programs: typedef chains up to length 12 over basic/void/tag/typedef-name bases with pointer (cv-qualified), array, function-pointer derivations and qualified bases, typedefs and tags shadowed in inner blocks (nesting to depth 3), forward-declared and later completed tags, variables of all these types at file and block scope; + 6 hand-written programs (qualifier accumulation, shadowing after an outer use, chains of 12, tags); per declaration the printed type (which declaration each typedef-name/tag leaf refers to, what it resolves to, canonical-object marks) is compared with the generator's C environment/expansion and with the Lean model",
+        "rule": "generated programs: typedef chains up to length 12 over basic/void/tag/typedef-name bases with pointer (cv-qualified), array, function-pointer derivations and qualified bases, typedefs and tags shadowed in inner blocks (nesting to depth 3), forward-declared and later completed tags, variables of all these types at file and block scope; structures and unions at file and block scope whose members are plain, bit-field and function-pointer members (parameters of basic and typedef-name types), anonymous structures/unions, named members of untagged and of tagged types defined in place, nested to depth 3; + 6 hand-written programs (qualifier accumulation, shadowing after an outer use, chains of 12, tags); per declaration the printed type (which declaration each typedef-name/tag leaf refers to, what it resolves to, canonical-object marks) is compared with the generator's C environment/expansion and with the Lean model",
         "samples": [gens[0][1][:300], gens[-1][1][:300]],
     })
     ctx.notes.update({"declarations_compared": ndecl, "oracle_violations": nviol, "model_disagreements": ncorr, "known_fundef_signature_hits": nknown,
